@@ -151,11 +151,12 @@ func cmdReaders(args []string) {
 	}
 	sort.Strings(names)
 	runs, bad := 0, 0
-	for i := 0; i < *n; i++ {
+	for i := 0; i <= *n; i++ { // one extra message: unknown fields only
+		g.Cover(md, i, *n) // every field of a wide message is populated in one of the shared messages
 		d := g.Dynamic(md)
 		shared := mt.New().Interface()
 		proj.Fill(proj.Impl(shared), proj.Project(d.ProtoReflect(), proj.WrapNone), proj.WrapImpl)
-		if i%4 == 2 {
+		if i == *n {
 			// a message holding nothing but unknown fields (decoded from a newer schema)
 			var u []byte
 			for k := 0; k < 3; k++ {
